@@ -2,6 +2,7 @@ package engx
 
 import (
 	"context"
+	"encoding/json"
 	"errors"
 	"fmt"
 	"math/big"
@@ -10,8 +11,11 @@ import (
 	"sync"
 	"time"
 
+	"github.com/ThreeDotsLabs/watermill/message"
 	ledger "github.com/formancehq/ledger/internal"
+	"github.com/formancehq/ledger/internal/bus"
 	"github.com/formancehq/ledger/internal/engine/command"
+	"github.com/formancehq/ledger/pkg/events"
 	"github.com/formancehq/ledger/internal/machine"
 	"github.com/formancehq/ledger/internal/verifhook"
 	"github.com/formancehq/stack/libs/go-libs/metadata"
@@ -393,28 +397,60 @@ func (s *Sched) workerArrive(gen int, logs []*ledger.ChainedLog) int {
 
 // ---- monitor -------------------------------------------------------------------------------------------
 
-type monitor struct{ s *Sched }
+// The monitor handed to the Commander is the REAL bus monitor (internal/bus: ledgerMonitor, message.go, libs/publish)
+// over a recording publisher: what is observed is what a subscriber would receive, decoded from the message JSON.
+type recorder struct{ s *Sched }
 
-func (m monitor) pub(ctx context.Context, p Published) {
-	tid, _ := ctx.Value(tidKey).(int)
-	p.Tid = tid
-	p.Persisted = m.s.Disk.snapshot()
-	m.s.mu.Lock()
-	m.s.Published = append(m.s.Published, p)
-	m.s.Trace = append(m.s.Trace, Event{Tid: tid, Point: "publish", KV: map[string]string{"kind": p.Kind}})
-	m.s.mu.Unlock()
-}
-func (m monitor) CommittedTransactions(ctx context.Context, res ledger.Transaction, accountMetadata map[string]metadata.Metadata) {
-	m.pub(ctx, Published{Kind: "committed", Tx: &res})
-}
-func (m monitor) SavedMetadata(ctx context.Context, targetType, id string, md metadata.Metadata) {
-	m.pub(ctx, Published{Kind: "saved_metadata", Target: targetType, TargetID: id, Meta: md})
-}
-func (m monitor) RevertedTransaction(ctx context.Context, reverted, revert *ledger.Transaction) {
-	m.pub(ctx, Published{Kind: "reverted", Reverted: reverted, Tx: revert})
-}
-func (m monitor) DeletedMetadata(ctx context.Context, targetType string, targetID any, key string) {
-	m.pub(ctx, Published{Kind: "deleted_metadata", Target: targetType, TargetID: fmt.Sprint(targetID), Key: key})
+func (p recorder) Close() error { return nil }
+func (p recorder) Publish(topic string, msgs ...*message.Message) error {
+	for _, m := range msgs {
+		tid, _ := m.Context().Value(tidKey).(int)
+		var em struct {
+			Type    string          `json:"type"`
+			Payload json.RawMessage `json:"payload"`
+		}
+		pub := Published{Tid: tid, Kind: "undecodable"}
+		if json.Unmarshal(m.Payload, &em) == nil {
+			switch em.Type {
+			case events.EventTypeCommittedTransactions:
+				var c bus.CommittedTransactions
+				if json.Unmarshal(em.Payload, &c) == nil && len(c.Transactions) == 1 {
+					pub.Kind, pub.Tx = "committed", &c.Transactions[0]
+				}
+			case events.EventTypeRevertedTransaction:
+				var c bus.RevertedTransaction
+				if json.Unmarshal(em.Payload, &c) == nil {
+					pub.Kind, pub.Reverted, pub.Tx = "reverted", &c.RevertedTransaction, &c.RevertTransaction
+				}
+			case events.EventTypeSavedMetadata:
+				var c bus.SavedMetadata
+				if json.Unmarshal(em.Payload, &c) == nil {
+					pub.Kind, pub.Target, pub.TargetID, pub.Meta = "saved_metadata", c.TargetType, c.TargetID, c.Metadata
+				}
+			case events.EventTypeDeletedMetadata:
+				var c struct {
+					TargetType string          `json:"targetType"`
+					TargetID   json.RawMessage `json:"targetId"`
+					Key        string          `json:"key"`
+				}
+				if json.Unmarshal(em.Payload, &c) == nil {
+					id := strings.Trim(string(c.TargetID), `"`)
+					pub.Kind, pub.Target, pub.TargetID, pub.Key = "deleted_metadata", c.TargetType, id, c.Key
+				}
+			default:
+				pub.Kind = "unknown-type:" + em.Type
+			}
+			if topic != em.Type {
+				pub.Kind += ":topic-differs"
+			}
+		}
+		pub.Persisted = p.s.Disk.snapshot()
+		p.s.mu.Lock()
+		p.s.Published = append(p.s.Published, pub)
+		p.s.Trace = append(p.s.Trace, Event{Tid: tid, Point: "publish", KV: map[string]string{"kind": pub.Kind}})
+		p.s.mu.Unlock()
+	}
+	return nil
 }
 
 // ---- lifecycle ------------------------------------------------------------------------------------------
@@ -442,7 +478,7 @@ func (s *Sched) boot() {
 	s.workerParked, s.workerBatch, s.pending = false, nil, 0
 	s.mu.Unlock()
 	store := &Store{D: s.Disk, S: s, Gen: s.Gen}
-	c := command.New(store, command.NewDefaultLocker(), compiler, command.NewReferencer(), monitor{s})
+	c := command.New(store, command.NewDefaultLocker(), compiler, command.NewReferencer(), bus.NewLedgerMonitor(recorder{s}, "l0"))
 	var initPanic any
 	func() {
 		defer func() { initPanic = recover() }()
